@@ -181,6 +181,9 @@ func c02(args []string) int {
 		strings.Fields("W3 W3 SW W1"), // multi-page table, unsynced commit: a following TXB spills new versions of existing pages behind it
 		strings.Fields("W3 W3 SW W1 TXB")}
 	layers := []Layer{
+		// snapshots, compactions and syncs right after litestream was restarted on a WAL it had already copied
+		{Name: "seeded/base/after-restart", Cfg: base, Alphabet: strings.Fields("S SW FSNAP SNAP CMP:1 W1 U"), Depth: d(2, 3),
+			Seeds: [][]string{strings.Fields("W3 SW LC:TRUNCATE W1 SW KILL NEW"), strings.Fields("W3 SW W1 SW CL START"), strings.Fields("W3 SW LC:PASSIVE U SW W1 SW KILL NEW")}},
 		{Name: "exact/chunk1/tx", Cfg: chunk1, Alphabet: aTx, Depth: d(3, 5)},
 		{Name: "exact/base/tx", Cfg: base, Alphabet: aTx, Depth: d(3, 5)},
 		{Name: "exact/chunk3/tx", Cfg: chunk3, Alphabet: aTx, Depth: d(3, 4)},
